@@ -141,9 +141,32 @@ func TestPoolLifeCycles(t *testing.T) {
 						}
 					}
 				}
-				if inviteePoolOnline {
+				bigPoolOnline, smallPool := false, false
+				for _, a := range w.Actors {
+					if vc.IsPool(a.Addr) && !vc.IsValidated(a.Addr) {
+						n := 0
+						for _, d := range w.Actors {
+							did := s.State.GetIdentity(d.Addr)
+							if x := did.Delegatee(); x != nil && *x == a.Addr && vc.Delegator(d.Addr) == a.Addr {
+								n++
+							}
+						}
+						if n >= 2 && vc.IsOnlineIdentity(a.Addr) {
+							bigPoolOnline = true
+						}
+						if n == 1 {
+							smallPool = true
+						}
+					}
+				}
+				switch {
+				case bigPoolOnline && rapid.Bool().Draw(t, "exodusNow"):
+					intent = "exodus"
+				case inviteePoolOnline:
 					intent = "killInvitee"
-				} else if poolOffline {
+				case smallPool && rapid.Bool().Draw(t, "growPool"):
+					intent = "growPool"
+				case poolOffline:
 					intent = "online"
 				}
 			}
@@ -269,6 +292,50 @@ func TestPoolLifeCycles(t *testing.T) {
 					}
 					submit(what, mkTx(p.inviter, types.KillInviteeTx, &to, nil, nil), p.inviter)
 				}
+			case "growPool":
+				// a second delegator for a pool around a non-validated address
+				b := pick("smallPool", func(b *sim.Actor, id state.Identity) bool { return vc.IsPool(b.Addr) && !vc.IsValidated(b.Addr) })
+				a := pick("joiner", func(a *sim.Actor, id state.Identity) bool {
+					return id.State.NewbieOrBetter() && id.Delegatee() == nil && !vc.IsPool(a.Addr) && s.State.DelegationSwitch(a.Addr) == nil && (b == nil || a != b)
+				})
+				if a != nil && b != nil {
+					to := b.Addr
+					submit(intent, mkTx(a, types.DelegateTx, &to, nil, nil), a)
+				}
+			case "exodus":
+				// every delegator of one online pool around a non-validated address leaves in the same block: by
+				// terminating itself, by undelegating, or terminated by the pool
+				var pools []*sim.Actor
+				for _, a := range w.Actors {
+					if vc.IsPool(a.Addr) && !vc.IsValidated(a.Addr) && vc.IsOnlineIdentity(a.Addr) {
+						pools = append(pools, a)
+					}
+				}
+				if len(pools) == 0 {
+					break
+				}
+				pool := pools[rapid.IntRange(0, len(pools)-1).Draw(t, "exodusPool")]
+				n := 0
+				for _, d := range w.Actors {
+					did := s.State.GetIdentity(d.Addr)
+					x := did.Delegatee()
+					if x == nil || *x != pool.Addr || vc.Delegator(d.Addr) != pool.Addr {
+						continue
+					}
+					n++
+					switch rapid.SampledFrom([]string{"kill", "killDelegator", "undelegate"}).Draw(t, "leaves") {
+					case "kill":
+						submit("exodus.kill", mkTx(d, types.KillTx, nil, nil, nil), d)
+					case "killDelegator":
+						to := d.Addr
+						submit("exodus.killDelegator", mkTx(pool, types.KillDelegatorTx, &to, nil, nil), pool)
+					default:
+						submit("exodus.undelegate", mkTx(d, types.UndelegateTx, nil, nil, nil), d)
+					}
+				}
+				evid.Count(fmt.Sprintf("exodus.delegators=%d", n))
+				block()
+				continue
 			case "killDelegator":
 				a := pick("poolOwner", func(a *sim.Actor, id state.Identity) bool { return vc.IsPool(a.Addr) })
 				if a != nil {
